@@ -14,6 +14,8 @@ import Dashu.Model.Int.Repr
   * `decode`          : MODEL of `decode`.
   A float is always its bit pattern (`Nat`).
 -/
+deriving instance DecidableEq for Except
+
 namespace Dashu.Model.Conv
 open Dashu.Model
 
